@@ -617,6 +617,33 @@ static void run_long1(Outcome &o, int alg, int64_t total, int mode, const std::s
   EVP_DigestFinal_ex(e, w, &wl);
   EVP_MD_CTX_free(e);
   std::string want((char *)w, wl);
+  // history independence: a short message hashed right after the long one (same process) must come out right
+  if (got == want) {
+    // the 56-byte message comes first: it has the longest padding (64 bytes), and a shorter one hashed before it could repair what the long message left behind
+    static const char *SHORT[5] = {"aaaaaaaaaaaaaaaaaaaaaaaaaaaaaaaaaaaaaaaaaaaaaaaaaaaaaaaa", "abc", "",
+                                   "The quick brown fox jumps over the lazy dog, twice: The quick brown fox jumps over the lazy dog",
+                                   "bbbbbbbbbbbbbbbbbbbbbbbbbbbbbbbbbbbbbbbbbbbbbbbbbbbbbbbbbbbbbbbbbbbbbbbbbbbbbbbbbbbbbbbbbbbbbbbbbbbbbbbbbbbbbbbbbbbbbbbbbbbbbbbb"};
+    for (int si = 0; si < 5 && o.ok; si++) {
+      size_t sl = strlen(SHORT[si]);
+      void *c2 = c01_hash_new(alg);
+      c01_hash_init(alg, c2);
+      uint8_t *sp = exact(SHORT[si], sl);
+      c01_hash_update(alg, c2, sp, sl);
+      uint8_t *d2 = (uint8_t *)malloc(DLEN[alg]);
+      c01_hash_final(alg, c2, d2);
+      std::string g2((char *)d2, DLEN[alg]);
+      unsigned char w2[EVP_MAX_MD_SIZE];
+      unsigned int wl2 = 0;
+      EVP_Digest(sp, sl, w2, &wl2, evp(alg), nullptr);
+      free(d2);
+      free(c2);
+      free(sp);
+      if (g2 != std::string((char *)w2, wl2))
+        o.fail(std::string(ALG[alg]) + "-after-long", std::string(ALG[alg]) + " of a " + std::to_string(sl) + "-byte message computed right after a " + std::to_string(total) +
+                                                          "-byte one = " + hex(g2) + ", OpenSSL EVP says " + hex(std::string((char *)w2, wl2)));
+    }
+    o.cls(std::string(ALG[alg]) + ":short-message-after-long-one");
+  }
   bool carry = total >= ((int64_t)1 << 29);
   o.cls(std::string(ALG[alg]) + (carry ? ":bitcount>=2^32" : ":bitcount<2^32") + (mode == 4 ? ":single-update" : ":chunked"));
   if (mode != 4) o.cls("chunk:" + std::to_string(CHUNK[mode]));
@@ -661,6 +688,48 @@ static Outcome run_giant(int alg, const Case &c) {
   o.nontrivial = true;
   if (got != want)
     o.fail(std::string(ALG[alg]) + "-giant", std::string(ALG[alg]) + " of " + std::to_string(pre) + " + " + std::to_string(total) + " bytes (second update is ONE call) = " + hex(got) + ", OpenSSL EVP says " + hex(want));
+  return o;
+}
+static void c01_crc_run(const uint8_t *p, size_t total, const size_t *cuts, size_t ncuts, uint8_t out[4]) {
+  void *ctx = c01_crc_new();
+  c01_crc_init(ctx);
+  if (ncuts == 0)
+    c01_crc_update(ctx, p, total);
+  else {
+    size_t off = 0;
+    for (size_t i = 0; i < ncuts; i++) {
+      c01_crc_update(ctx, p + off, cuts[i]);
+      off += cuts[i];
+    }
+  }
+  c01_crc_final(ctx, out);
+  free(ctx);
+}
+// CRC32C: one update call of 2^32 + k bytes against the same bytes fed in eight calls of about 2^29 bytes (the chunked form is what the
+// other subs judge at small scale)
+static Outcome run_giant_crc(const Case &c) {
+  Outcome o;
+  if (c.empty() || c[0].a.size() < 2) return o;
+  size_t total = ((size_t)1 << 32) + (size_t)std::max<int64_t>(0, std::min<int64_t>(c[0].a[0], 1 << 20));
+  size_t off = (size_t)(c[0].a[1] & 15);
+  uint8_t *mp = (uint8_t *)mmap(nullptr, total + 16, PROT_READ, MAP_PRIVATE | MAP_ANONYMOUS | MAP_NORESERVE, -1, 0);
+  if (mp == MAP_FAILED) harness_error("mmap of 4 GiB failed");
+  uint8_t one[4], many[4];
+  c01_crc_run(mp + off, total, nullptr, 0, one);
+  std::vector<size_t> cuts;
+  size_t left = total, piece = ((size_t)1 << 29) + 13;
+  while (left) {
+    size_t n = std::min(left, piece);
+    cuts.push_back(n);
+    left -= n;
+  }
+  c01_crc_run(mp + off, total, cuts.data(), cuts.size(), many);
+  munmap(mp, total + 16);
+  o.cls("crc32c:one-update-of->=2^32-bytes");
+  o.nontrivial = true;
+  if (memcmp(one, many, 4) != 0)
+    o.fail("crc32c-giant", "CRC32C of " + std::to_string(total) + " zero bytes: one update call gives " + hex(std::string((char *)one, 4)) + ", " + std::to_string(cuts.size()) + " calls give " +
+                               hex(std::string((char *)many, 4)));
   return o;
 }
 static rc::Gen<Case> gen_giant(int) {
@@ -727,5 +796,9 @@ int main(int argc, char **argv) {
                     "one update call of 2^32 + k bytes (k in 0..2^20) of zeros from an untouched anonymous mapping, after 0..65 ordinary bytes: a length which does not fit 32 bits. "
                     "Oracle: OpenSSL EVP fed the same two pieces. Every case non-trivial",
                     gen_giant, [alg](const Case &c) { return run_giant(alg, c); }});
+  subs.push_back({"giant-crc32c",
+                  "CRC32C of 2^32 + k zero bytes (k in 0..2^20, buffer offset 0..15): ONE update call must give what nine calls of 2^29+13 bytes give (metamorphic: the split form is the "
+                  "one the crc32c sub judges against the polynomial at small scale). Every case non-trivial",
+                  gen_giant, run_giant_crc});
   return pbt_main(argc, argv, subs);
 }
